@@ -64,7 +64,12 @@ def harness(g, chart, level, canary=False):
     from sismic.exceptions import NonDeterminismError, ConflictingTransitionsError
     if 'chart' in chart:
         chart = chart['chart']
+    # construction history: built directly, or with one composite state first attached elsewhere and moved
+    mv = cg.movable(chart)
+    moved = mv if (mv is not None and g.choice('built_by_move', 2)) else None
     namings = level.get('namings', ['id'])
+    if moved is not None and 'id' not in namings:
+        namings = namings + ['id']       # stale derived data shows or hides behind the tie-breaking name order
     naming = namings[g.choice('naming', len(namings))]
     sit = SITUATIONS[g.choice('situation', len(SITUATIONS))]
     m = len(chart['tr'])
@@ -87,9 +92,6 @@ def harness(g, chart, level, canary=False):
     decl = g.choice('decl', 2) if m >= 3 else 0
     tro = (list(range(1, m)) + [0]) if decl else None
     tro = ([0] + list(range(2, m)) + [1]) if decl and m >= 3 else tro
-    # construction history: built directly, or with one composite state first attached elsewhere and moved
-    mv = cg.movable(chart)
-    moved = mv if (mv is not None and g.choice('built_by_move', 2)) else None
     sc, trs, cm = cg.build(chart, naming, code, priorities=prio, tr_order=tro, moved=moved)
     it = Interpreter(sc, initial_context={'G': G})
     it.execute_once()
